@@ -13,6 +13,7 @@ import (
 	"os/exec"
 	"regexp"
 	"sort"
+	"strconv"
 	"strings"
 	"sync"
 	"syscall"
@@ -65,6 +66,7 @@ type Pool struct {
 	PerKiB       time.Duration // ... plus this much per KiB of input
 	mu           sync.Mutex
 	restarts     int
+	hangs        int // calls that did not come back so far
 }
 
 func newPool() (*Pool, error) {
@@ -141,15 +143,26 @@ func (w *worker) dumpAndKill() string {
 	return w.stderr.String()
 }
 
+// budget is the watchdog period of one call.  Once six calls have not come
+// back the verdict of the run is settled (every report is confirmed with the
+// full period anyway); further cases get a quarter of it so that a tree with
+// a systematic hang is not waited for case by case.
 func (p *Pool) budget(req *Req, n int) time.Duration {
-	return p.Watchdog + time.Duration(n/1024)*p.PerKiB
+	w := p.Watchdog
+	p.mu.Lock()
+	if p.hangs >= 6 && !p.defaultStack {
+		w /= 4
+	}
+	p.mu.Unlock()
+	return w + time.Duration(n/1024)*p.PerKiB
 }
 
 var fatalPat = regexp.MustCompile(`(?m)^(fatal error: [^\n]*|runtime: [^\n]*out of memory[^\n]*|panic: [^\n]*|signal: [^\n]*)`)
 
-// stackSignature names the library functions on the stack of the goroutine
-// that ran the call (for stable violation keys): the set of distinct library
-// functions among the innermost frames, smallest first.
+// stackSignature describes the stack of the goroutine that ran the call, for
+// stable violation keys: "inner=<innermost library function> cycle={the
+// distinct library functions among the innermost frames, sorted}
+// entry=<outermost library function, i.e. the public entry point>".
 func stackSignature(dump string, running bool) string {
 	blocks := strings.Split(dump, "\n\n")
 	best := ""
@@ -157,10 +170,10 @@ func stackSignature(dump string, running bool) string {
 		if !strings.HasPrefix(strings.TrimSpace(b), "goroutine ") {
 			continue
 		}
-		if !strings.Contains(b, "c05.(*wk).call") && !strings.Contains(b, "seehuhn.de/go/") {
+		if !strings.Contains(b, "c05.(*wk).") && !strings.Contains(b, "seehuhn.de/go/") {
 			continue
 		}
-		if strings.Contains(b, "c05.(*wk).call") {
+		if strings.Contains(b, "c05.(*wk).measure") {
 			best = b
 			break
 		}
@@ -169,11 +182,12 @@ func stackSignature(dump string, running bool) string {
 		}
 	}
 	if best == "" {
-		return "?"
+		return "inner=? cycle={} entry=?"
 	}
 	seen := map[string]bool{}
 	var fns []string
 	n := 0
+	entry := "?"
 	for _, line := range strings.Split(best, "\n") {
 		if strings.HasPrefix(line, "\t") || !strings.Contains(line, "seehuhn.de/go/") || strings.Contains(line, "verif/harness") {
 			continue
@@ -182,9 +196,12 @@ func stackSignature(dump string, running bool) string {
 			line = line[:i]
 		}
 		fn := strings.TrimPrefix(strings.TrimSpace(line), "seehuhn.de/go/")
-		fn = strings.TrimPrefix(fn, "created by ")
+		if strings.HasPrefix(fn, "created by ") {
+			continue
+		}
+		entry = fn
 		if n++; n > 40 {
-			break
+			continue
 		}
 		if !seen[fn] {
 			seen[fn] = true
@@ -192,14 +209,14 @@ func stackSignature(dump string, running bool) string {
 		}
 	}
 	if len(fns) == 0 {
-		return "?"
+		return "inner=? cycle={} entry=?"
 	}
 	inner := fns[0]
 	sort.Strings(fns)
 	if len(fns) > 3 {
 		fns = fns[:3]
 	}
-	return inner + "{" + strings.Join(fns, ",") + "}"
+	return "inner=" + inner + " cycle={" + strings.Join(fns, ",") + "} entry=" + entry
 }
 
 // runCase sends one case to the worker (starting one if needed) and collects
@@ -243,6 +260,8 @@ func (p *Pool) runCase(w *worker, req *Req) (*worker, *Result) {
 		inputLen := len(req.Data)
 		cur, curArg := "", ""
 		var t0 time.Time
+		var beginCPU, lastCPU time.Duration
+		idle := 0
 		finished := false
 		timer := time.NewTimer(p.budget(req, inputLen) + 60*time.Second) // building the case
 		for !finished {
@@ -270,6 +289,7 @@ func (p *Pool) runCase(w *worker, req *Req) (*worker, *Result) {
 				var msg struct {
 					B    string `json:"b"`
 					A    string `json:"a"`
+					CPU  int64  `json:"cpu"`
 					R    *Rec   `json:"r"`
 					Done string `json:"done"`
 					Err  string `json:"err"`
@@ -281,6 +301,8 @@ func (p *Pool) runCase(w *worker, req *Req) (*worker, *Result) {
 				switch {
 				case msg.B != "":
 					cur, curArg, t0 = msg.B, msg.A, time.Now()
+					beginCPU = time.Duration(msg.CPU) * time.Microsecond
+					lastCPU, idle = -1, 0
 					timer.Reset(p.budget(req, inputLen))
 				case msg.R != nil:
 					if inputLen == 0 {
@@ -303,7 +325,35 @@ func (p *Pool) runCase(w *worker, req *Req) (*worker, *Result) {
 					return w, res
 				}
 			case <-timer.C:
+				// The period is over.  A call that is still burning CPU but has
+				// had little of it so far is being starved by the machine's load,
+				// not hanging: it gets more time (up to eight periods).  A call
+				// that has burnt most of a period, or makes no progress at all
+				// (blocked), is declared hanging.
+				if cur != "" {
+					budget := p.budget(req, inputLen)
+					now := procCPU(w.cmd.Process.Pid)
+					used := now - beginCPU
+					blocked := false
+					if lastCPU >= 0 && now-lastCPU < 30*time.Millisecond {
+						idle++
+						blocked = idle >= 2
+					} else if lastCPU >= 0 {
+						idle = 0
+					}
+					lastCPU = now
+					if now > 0 && used < budget*6/10 && !blocked && time.Since(t0) < 8*budget {
+						timer.Reset(budget / 8)
+						continue
+					}
+				}
 				dump := w.dumpAndKill()
+				p.mu.Lock()
+				p.hangs++
+				p.mu.Unlock()
+				if f := os.Getenv("C05_STACKS"); f != "" {
+					_ = os.WriteFile(f, []byte(dump), 0o644) // development aid
+				}
 				if cur == "" {
 					res.Infra = core.Infra("worker silent outside a call (case %s %s)\n%s", req.ID, req.describe(), tailStr(dump, 1500))
 					return nil, res
@@ -392,4 +442,28 @@ func (r *Req) describe() string {
 		return "calib " + r.Calib.Kind
 	}
 	return fmt.Sprintf("%d bytes", len(r.Data))
+}
+
+// procCPU returns the CPU time (user + system) a process has used, from
+// /proc/<pid>/stat; 0 if it cannot be read.
+func procCPU(pid int) time.Duration {
+	raw, err := os.ReadFile(fmt.Sprintf("/proc/%d/stat", pid))
+	if err != nil {
+		return 0
+	}
+	// the command name (field 2) may contain spaces: fields are counted after the last ')'
+	i := bytes.LastIndexByte(raw, ')')
+	if i < 0 {
+		return 0
+	}
+	f := strings.Fields(string(raw[i+1:]))
+	if len(f) < 13 {
+		return 0
+	}
+	ut, err1 := strconv.ParseInt(f[11], 10, 64)
+	st, err2 := strconv.ParseInt(f[12], 10, 64)
+	if err1 != nil || err2 != nil {
+		return 0
+	}
+	return time.Duration(ut+st) * 10 * time.Millisecond // USER_HZ = 100
 }
